@@ -504,8 +504,8 @@ Inductive ctype :=
 | TText | TBlob | TAny | TBool | TInt | TNumeric | TDate | TDateTime (zone : str) | TChoice | TChoiceList
 | TPositionNumber | TManualSortPos | TId | TRef (t : str) | TRefList (t : str) | TAttachments.
 
-Definition falsy_values := [Str "false"; Str "no"; Str "0"].
-Definition truthy_values := [Str "true"; Str "yes"; Str "1"].
+Definition falsy_values := [Str "0"; Str "false"; Str "no"].
+Definition truthy_values := [Str "1"; Str "true"; Str "yes"].
 
 (* DateTime.__init__: unknown zone -> UTC *)
 Definition effective_zone (z : str) : str :=
